@@ -402,7 +402,7 @@ ENCODED = ["twisted.protocols.tls:TLSMemoryBIOProtocol.makeConnection",
            "twisted.protocols.tls:_ContextFactoryToConnectionFactory._connectionForTLS",
            "twisted.protocols.policies:ProtocolWrapper.connectionLost",
            "twisted.protocols.policies:ProtocolWrapper.dataReceived"]
-BOUNDS = {"quick": {"hist": 3, "phist": 2, "fhist": 3, "cap": 1 << 14},
+BOUNDS = {"quick": {"hist": 3, "phist": 2, "fhist": 2, "cap": 1 << 14},
           "thorough": {"hist": 4, "phist": 3, "fhist": 3, "cap": 1 << 14}}
 B = {}
 BOUNDS_TEXT = ("two real TLSMemoryBIOProtocol instances (client, server) over two in-memory transports and the contract "
@@ -417,10 +417,13 @@ BOUNDS_TEXT = ("two real TLSMemoryBIOProtocol instances (client, server) over tw
                "registers a push producer after the prefix, then phist (quick 2, thorough 3) operations out of "
                "{delivery, loseConnection on either side, producer writes, producer unregisters, underlying "
                "transport pauses / resumes the producer}; after the drain the producer writes once more if it may "
-               "and unregisters, then a second drain.  history_fail: 3 operations out of "
-               "{write, delivery, loseConnection, abrupt loss of one underlying connection}, at least one loss")
+               "and unregisters (with `late` also when its connection is already gone), then a second drain.  "
+               "history_fail: fhist (quick 2, thorough 3) operations out of {write, delivery, loseConnection, "
+               "abrupt loss of one underlying connection, damage to the ciphertext in flight in one direction (the "
+               "next record does not authenticate: Error on the receiving engine, fatal alert to the sender)}, at "
+               "least one loss or damage")
 OUTSIDE = ["the real OpenSSL / pyOpenSSL: cryptography, certificate verification, alerts other than close_notify, "
-           "handshake failures other than a truncated stream, renegotiation / KeyUpdate / NewSessionTicket (so "
+           "handshake failures other than a truncated stream or a flight that does not authenticate, renegotiation / KeyUpdate / NewSessionTicket (so "
            "WantReadError from send only occurs while the handshake is incomplete), WantWriteError, ALPN / NPN; the "
            "contract model was written from the documentation and is NOT validated against the real library "
            "(not installed)",
@@ -462,6 +465,10 @@ ASSUMPTIONS = [
     "first call afterwards emits the close_notify record and returns True iff the peer's close_notify was already "
     "read, else False; a later call returns True if it has been read, else looks at the next complete record "
     "(close_notify: True; application data: Error; none: WantReadError)",
+    "damaged ciphertext (history_fail): the next record or flight that arrives completely at the receiving engine "
+    "raises Error 'decryption failed or bad record mac' from do_handshake / recv / shutdown, a fatal alert record "
+    "goes to the outgoing BIO, every later call raises the same Error; the sender's engine raises Error 'sslv3 alert "
+    "bad record mac' when it reaches the alert",
     "get_peer_certificate None, get_alpn_proto_negotiated b'', get/set_shutdown flags SENT_SHUTDOWN = 1 / "
     "RECEIVED_SHUTDOWN = 2, get/set_app_data, total_renegotiations 0",
     "the two engines of a connection share the list of records each has emitted (identity encryption: recv hands "
@@ -1103,7 +1110,7 @@ HARNESSES = [
       labels=("end", "ops", "data", "closed", "open", "hs")),
     H(history_prod, shards=_prod_shards,
       timeout={"quick": 120, "thorough": 900}, labels=("end", "ops", "data", "closed", "open", "hs")),
-    H(history_fail, shards=[("pre == %d" % p,) for p in range(5)], timeout={"quick": 120, "thorough": 900},
+    H(history_fail, shards=_PT, timeout={"quick": 120, "thorough": 900},
       labels=("end", "closed")),
 ]
 
@@ -1138,6 +1145,10 @@ VECTORS = {
         (False, True, 1, False, True, 5, False, 10, 10, 2, False, 1, 1, 6, False, 1, 1) + _N,
         # test_streamingProducerBothTransportsDecideToPause
         (False, False, 2, True, False, 7, False, 1, 1, 5, False, 4, 4, 8, False, 1, 1, 5, False, 2, 2),
+        # fixed defect (1b93569): both sides loseConnection, the close_notify exchange closes the connection of the
+        # side with the producer, which then unregisters: AttributeError from _shutdownTLS before the fix
+        (False, False, 4, True, True, 2, False, 1, 1, 2, True, 1, 1, 5, False, 16383, 1) + _N,
+        (True, False, 0, False, True, 2, False, 1, 1, 8, False, 1, 1) + _N + _N,
     ],
     "history_fail": [
         # test_unexpectedEOF / test_disorderlyShutdown: the peer's transport goes away without close_notify
@@ -1275,6 +1286,31 @@ def _model_selftest():
                     assert _tls._representsEOF(s._eof_error())
                 assert bool(link.wire_ok)
                 n += 1
+    # a damaged record: Error + fatal alert at the receiver, alert Error at the sender, both stay dead
+    link = _Link(True, False)
+    ctx = Context()
+    ctx._verif_link = link
+    c = Connection(ctx, None)
+    s = Connection(ctx, None)
+    c.set_connect_state()
+    s.set_accept_state()
+    for i in range(3):
+        for (x, y) in ((c, s), (s, c)):
+            try:
+                x.do_handshake()
+            except WantReadError:
+                pass
+            _pump(x, y)
+    assert c.hs_done and s.hs_done
+    c.send(rope.span(0, 4))
+    d = c.bio_read(1 << 15)
+    s.poison = True
+    s.bio_write(d[:3])
+    assert _raises(WantReadError, s.recv, 10)
+    s.bio_write(d[3:])
+    assert _raises(Error, s.recv, 10) and _raises(Error, s.recv, 10) and s.dead
+    assert _pump(s, c) == _ALERT and _raises(Error, c.recv, 10) and c.dead
+    n += 1
     # EOF during the handshake
     link = _Link(False, False)
     ctx = Context()
